@@ -53,7 +53,7 @@ def strip_lean_comments(src):
 def theorems_of(pid):
     p = os.path.join(LEAN, "RitiModel", "Props", f"{pid}.lean")
     src = strip_lean_comments(open(p, encoding="utf-8").read())
-    return [f"Riti.{pid}.{m}" for m in re.findall(r'^\s*theorem\s+([A-Za-z_][\w\.\']*)', src, flags=re.M)]
+    return [f"Riti.{pid}.{m}" for m in re.findall(r'^\s*theorem\s+([^\s\(\[\{:]+)', src, flags=re.M)]
 
 def forbidden_tokens():
     """sorry/admit/axiom/native_decide/… outside comments, in every .lean file of the project"""
